@@ -129,10 +129,11 @@ Proof. unfold write_body. apply as_bind; [apply as_write_id_arrays|]. intros _.
   apply as_bind; [destruct (w_eprops g); [apply as_write_props_arrays | apply as_ret]|]. intros _.
   apply as_lift. Qed.
 
-(* ---------- delete_geff: from its first mutation on, the nodes group is gone ---------- *)
-Definition nodes_gone (st : option znode) : Prop := match st with None => True | Some n => get n path_NODES = None end.
+(* ---------- delete_geff: from its first mutation on, the geff attribute is gone ---------- *)
+(* (the name is historical: before the repair of the deletion order the marker was "the nodes group is gone") *)
+Definition nodes_gone (st : option znode) : Prop := alookup "geff" (oattrs st) = None.
 Lemma nodes_gone_unrecognised k st : nodes_gone st -> unrecognised k st.
-Proof. destruct st as [n|]; cbn; intros H; [apply no_nodes_unrecognised; exact H | intro Hc; destruct k; discriminate]. Qed.
+Proof. apply no_geff_unrecognised. Qed.
 
 (* est P m: whatever the start, every state m adds satisfies P and so does the state it ends in;
    pres P m: the same provided the start satisfies P *)
@@ -188,31 +189,24 @@ Proof. intros Hf s HP. unfold bind, setup_group at 1. unfold bind, get_root.
     split; [apply Forall_app; split; [exact HF | constructor; [exact nodes_gone_empty | constructor]] | exact HP']. Qed.
 
 Lemma nodes_gone_del g k0 : nodes_gone (Some g) -> nodes_gone (Some (del_child g k0)).
-Proof. cbn. intros H. destruct g as [x|a ch]; cbn in *; [reflexivity|]. unfold get in *. cbn in *.
-  destruct (String.eqb path_NODES k0) eqn:E.
-  - apply String.eqb_eq in E. subst. apply alookup_adel_same.
-  - rewrite alookup_adel_other; [exact H|]. intro Hc. subst. rewrite String.eqb_refl in E. discriminate. Qed.
+Proof. unfold nodes_gone. cbn. destruct g as [x|a ch]; cbn; auto. Qed.
 
 Lemma pres_del_member name : pres nodes_gone (del_member name).
 Proof. unfold del_member. apply pres_setup_k. intros g Hg. destruct (get g name).
   - apply pres_set_root. apply nodes_gone_del. exact Hg.
   - apply pres_ret. Qed.
 
-Lemma pres_del_geff_attr : pres nodes_gone del_geff_attr.
-Proof. unfold del_geff_attr. apply pres_setup_k. intros g Hg. destruct (ahas "geff" (attrs_of g)).
-  - apply pres_set_root. destruct g as [x|a ch]; exact Hg.
-  - apply pres_fail. Qed.
-
-(* the first deletion establishes it, whatever the state *)
-Lemma est_del_nodes : est nodes_gone (del_member path_NODES).
-Proof. intros s. unfold del_member, bind, setup_group at 1. unfold bind, get_root.
+(* the first deletion -- of the attribute -- establishes it, whatever the state (it raises KeyError, changing nothing but
+   possibly creating the root, when there is no geff attribute) *)
+Lemma est_del_geff_attr : est nodes_gone del_geff_attr.
+Proof. intros s. unfold del_geff_attr, bind, setup_group at 1. unfold bind, get_root.
   destruct s as [root tr]. cbn [s_root s_trace]. destruct root as [[x|a ch]|]; cbn.
   - exists []. split; [reflexivity|]. split; [constructor | reflexivity].
-  - unfold get. cbn [children]. destruct (alookup path_NODES ch) eqn:E; cbn.
-    + exists [Some (ZG a (adel path_NODES ch))]. split; [reflexivity|].
-      assert (H : nodes_gone (Some (ZG a (adel path_NODES ch)))) by (cbn; unfold get; cbn; apply alookup_adel_same).
+  - destruct (ahas "geff" a) eqn:E; cbn.
+    + exists [Some (ZG (adel "geff" a) ch)]. split; [reflexivity|].
+      assert (H : nodes_gone (Some (ZG (adel "geff" a) ch))) by (unfold nodes_gone; cbn; apply alookup_adel_same).
       split; [constructor; [exact H | constructor] | exact H].
-    + exists []. split; [reflexivity|]. split; [constructor | unfold get; cbn [children]; exact E].
+    + exists []. split; [reflexivity|]. split; [constructor|]. unfold nodes_gone. cbn. apply ahas_false. exact E.
   - exists [Some empty_group]. split; [reflexivity|]. split; [constructor; [reflexivity | constructor] | reflexivity]. Qed.
 
 Lemma all_new_setup_group : all_new nodes_gone setup_group.
@@ -233,13 +227,14 @@ Proof. intros Hf s. unfold bind, setup_group at 1. unfold bind, get_root.
     exists (new ++ [Some empty_group]). rewrite Ht, <- app_assoc. split; [reflexivity|].
     split; [apply Forall_app; split; [exact HF | constructor; [exact nodes_gone_empty | constructor]] | exact HP']. Qed.
 
-(* every state delete_geff adds, and the state it ends in, lacks the nodes group (or is the removed path) *)
+(* every state delete_geff adds, and the state it ends in, lacks the geff attribute (or is the removed path) *)
 Theorem delete_geff_states k : est nodes_gone (delete_geff k).
 Proof. unfold delete_geff. apply est_setup_k. intros _.
-  apply est_bind; [apply est_del_nodes|]. intros _.
+  apply est_bind; [apply est_del_geff_attr|]. intros _.
+  apply pres_bind; [apply pres_del_member|]. intros _.
   apply pres_bind; [apply pres_del_member|]. intros _.
   apply pres_setup_k. intros g Hg. destruct (children g) as [|kv c]; destruct k;
-    first [apply pres_set_root; exact I | apply pres_del_geff_attr]. Qed.
+    first [apply pres_set_root; reflexivity | apply pres_ret]. Qed.
 
 (* ---------- after a successful delete_geff there is no geff attribute ---------- *)
 Lemma bind_ok_inv {A B} (m : M A) (f : A -> M B) s s' b :
@@ -252,16 +247,7 @@ Proof. unfold del_geff_attr. intros H. apply bind_ok_inv in H. destruct H as [g 
   destruct g as [x|a ch]; cbn; [reflexivity | apply alookup_adel_same]. Qed.
 
 Theorem delete_geff_ok_no_geff k s s' : delete_geff k s = (s', Ok tt) -> alookup "geff" (oattrs (s_root s')) = None.
-Proof. unfold delete_geff. intros H.
-  apply bind_ok_inv in H. destruct H as [_ [s1 [_ H]]].
-  apply bind_ok_inv in H. destruct H as [_ [s2 [_ H]]].
-  apply bind_ok_inv in H. destruct H as [_ [s3 [_ H]]].
-  apply bind_ok_inv in H. destruct H as [g [s4 [_ H]]].
-  destruct (children g) as [|kv c]; destruct k; cbn iota in H.
-  - unfold set_root in H. inversion H; subst. reflexivity.
-  - exact (del_geff_attr_ok _ _ H).
-  - exact (del_geff_attr_ok _ _ H).
-  - exact (del_geff_attr_ok _ _ H). Qed.
+Proof. intros H. pose proof (delete_geff_states k s) as Hd. rewrite H in Hd. destruct Hd as [new [_ [_ HP]]]. exact HP. Qed.
 
 (* ---------- the write after the overwrite guard ---------- *)
 Definition write_tail (k : skind) (validate : bool) : M unit :=
@@ -446,16 +432,13 @@ Lemma delete_geff_root k s a ch :
   s_root s = Some (ZG a ch) -> ahas "geff" a = true ->
   exists tr, delete_geff k s = (mkst (cleaned k a ch) tr, Ok tt).
 Proof. intros Hs Hg. unfold delete_geff. unfold bind at 1. rewrite (setup_group_ok _ _ _ Hs).
-  destruct (del_member_root s a ch path_NODES Hs) as [tr1 H1]. unfold bind at 1. rewrite H1.
-  destruct (del_member_root (mkst _ tr1) a (adel path_NODES ch) path_EDGES eq_refl) as [tr2 H2]. unfold bind at 1. rewrite H2.
-  unfold bind at 1. rewrite (setup_group_ok (mkst _ tr2) a _ eq_refl). cbn [children]. unfold cleaned.
-  destruct (adel path_EDGES (adel path_NODES ch)) as [|kv c] eqn:Ech.
-  - destruct k.
-    + eexists. reflexivity.
-    + unfold del_geff_attr, bind. rewrite (setup_group_ok (mkst _ tr2) a [] eq_refl). cbn [attrs_of]. rewrite Hg. eexists. reflexivity.
-  - assert (Hd : exists tr, del_geff_attr (mkst (Some (ZG a (kv :: c))) tr2) = (mkst (Some (ZG (adel "geff" a) (kv :: c))) tr, Ok tt)).
-    { unfold del_geff_attr, bind. rewrite (setup_group_ok (mkst _ tr2) a (kv :: c) eq_refl). cbn [attrs_of]. rewrite Hg. eexists. reflexivity. }
-    destruct k; exact Hd.
+  assert (Hd : exists tr, del_geff_attr s = (mkst (Some (ZG (adel "geff" a) ch)) tr, Ok tt)).
+  { unfold del_geff_attr, bind. rewrite (setup_group_ok _ _ _ Hs). cbn [attrs_of]. rewrite Hg. eexists. reflexivity. }
+  destruct Hd as [tr0 H0]. unfold bind at 1. rewrite H0.
+  destruct (del_member_root (mkst _ tr0) (adel "geff" a) ch path_NODES eq_refl) as [tr1 H1]. unfold bind at 1. rewrite H1.
+  destruct (del_member_root (mkst _ tr1) (adel "geff" a) (adel path_NODES ch) path_EDGES eq_refl) as [tr2 H2]. unfold bind at 1. rewrite H2.
+  unfold bind at 1. rewrite (setup_group_ok (mkst _ tr2) (adel "geff" a) _ eq_refl). cbn [children]. unfold cleaned.
+  destruct (adel path_EDGES (adel path_NODES ch)) as [|kv c] eqn:Ech; destruct k; eexists; reflexivity.
 Qed.
 
 Theorem tail_reject k s a ch :
